@@ -407,7 +407,7 @@ func (c *Ctx) Run(tier string) {
 			}
 		}
 	}
-	rep.Bound = fmt.Sprintf("freshly built cmd/gmars: every ordered pair of the 8 generated warriors that fits -l x every -F in 1..M-1 x (-s,-l) in %v x -p in %v x -c in %v x -8 on/off x -r in %v; a process-limit-sensitive pair under -p in {1,2,3,5,8,12,13,14,20,100} (below, at and above the core size) x -c in {40,100} x every -F", geos, procs, cycles, rounds)
+	rep.Bound = fmt.Sprintf("freshly built cmd/gmars: every ordered pair of the 10 generated warriors that fits -l x every -F in 1..M-1 x (-s,-l) in %v x -p in %v x -c in %v x -8 on/off x -r in %v; a process-limit-sensitive pair under -p in {1,2,3,5,8,12,13,14,20,100} (below, at and above the core size) x -c in {40,100} x every -F", geos, procs, cycles, rounds)
 	// single warrior runs
 	for i := range ws {
 		if !c.mine() {
